@@ -21,8 +21,8 @@ Orderings == { <<>>, <<K("size", FALSE)>>, <<K("size", TRUE)>>, <<K("name", FALS
 ArchOrderings == { <<>>, <<K("name", FALSE)>>, <<K("name", TRUE)>> }
 ZM(nm) == [name |-> nm, mode |-> 33188, dos |-> <<2017, 5, 1, 10, 20, 30>>, method |-> "stored", content |-> <<[byte |-> 97, count |-> 3]>>, isdir |-> FALSE]
 ZipNode(i, p, nm, members) == N(i, p, "file", nm, <<>>, 420, 0, 0, Day2, 0, -3) @@ [zip |-> members, iszip |-> TRUE]
-W5z == [nodes |-> W5.nodes \o << ZipNode(23, 0, <<"k",".","j","a","r">>, << ZM("a.txt"), ZM("m1"), ZM("z"), ZM("B.log"), ZM("l05"), ZM("zz") >>),
-                                  ZipNode(24, 5, <<"j",".","w","a","r">>, << ZM("a2"), ZM("m0"), ZM("m1"), ZM("0"), ZM("zq") >>) >>]
+W5z == [nodes |-> W5.nodes \o << ZipNode(Len(W5.nodes) + 1, 0, <<"k",".","j","a","r">>, << ZM("a.txt"), ZM("m1"), ZM("z"), ZM("B.log"), ZM("l05"), ZM("zz") >>),
+                                  ZipNode(Len(W5.nodes) + 2, 5, <<"j",".","w","a","r">>, << ZM("a2"), ZM("m0"), ZM("m1"), ZM("0"), ZM("zq") >>) >>]
 Init == ord = <<>> /\ lim = 0 /\ wh = FALSE /\ roots = 1 /\ dfs = FALSE /\ arch = FALSE /\ cc = FALSE /\ grp = FALSE /\ fn2 = FALSE /\ phase = "start"
 Choose == /\ phase = "start"
           \* grp: a grouped query (one row per extension), optionally ordered by the key; rows judged as texts like the archive kind
@@ -45,7 +45,8 @@ WhereAtom == IF arch THEN A1("name", "like", TextL(<<"%","z","%">>), "") ELSE A1
 WhereText == IF wh THEN " where " \o CondText(WhereAtom) ELSE ""
 Mode == (IF arch THEN " archives" ELSE "") \o (IF dfs THEN " dfs" ELSE "")
 FromText == IF roots = 1 THEN " from '.'" \o Mode ELSE " from 'd1'" \o Mode \o ", 'h'" \o Mode
-Base == (IF grp THEN "select ext, count(*)" ELSE IF arch THEN "select name" ELSE IF fn2 THEN "select concat('', path)" ELSE "select path") \o (IF cc THEN ", 1 + 1" ELSE "") \o FromText \o WhereText
+\* (grouped: the count reaches the select list inside an arithmetic expression when a constant column is asked for: `0 + count(*)`)
+Base == (IF grp THEN (IF wh THEN "select ext, 0 + count(*)" ELSE "select ext, count(*)") ELSE IF arch THEN "select name" ELSE IF fn2 THEN "select concat('', path)" ELSE "select path") \o (IF cc THEN ", 1 + 1" ELSE "") \o FromText \o WhereText
         \o (IF grp THEN " group by ext" ELSE "")
 Query == Base \o (IF ord = <<>> THEN "" ELSE " order by " \o OrderText(1)) \o " limit " \o ToString(lim) \o " into list"
 
